@@ -347,6 +347,129 @@ pub fn run(ctx: &Ctx) -> Report {
         });
         rep.merge(r);
 
+        // values of every kind laid across the packet boundary: behind a blob that ends k bytes in
+        // front of the 2^24-1 limit comes an integer, a float, a date, a time, a short string or a
+        // NULL (text and binary), so that the limit falls at each offset of that cell's encoding; a
+        // small cell follows. The writer of such a cell hands its bytes to the packet layer in
+        // whatever pieces it likes - what the client reassembles must be the row.
+        let kinds: Vec<(ColumnType, ColumnFlags, V)> = vec![
+            (ColumnType::MYSQL_TYPE_LONGLONG, ColumnFlags::empty(), V::I64(-1234567890123456789)),
+            (ColumnType::MYSQL_TYPE_LONGLONG, ColumnFlags::UNSIGNED_FLAG, V::U64(u64::MAX)),
+            (ColumnType::MYSQL_TYPE_LONG, ColumnFlags::empty(), V::I32(7654321)),
+            (ColumnType::MYSQL_TYPE_SHORT, ColumnFlags::empty(), V::I16(-12345)),
+            (ColumnType::MYSQL_TYPE_TINY, ColumnFlags::UNSIGNED_FLAG, V::U8(200)),
+            (ColumnType::MYSQL_TYPE_LONGLONG, ColumnFlags::UNSIGNED_FLAG, V::Usize(1 << 40)),
+            (ColumnType::MYSQL_TYPE_DOUBLE, ColumnFlags::empty(), V::F64(-7654.000244140625)),
+            (ColumnType::MYSQL_TYPE_FLOAT, ColumnFlags::empty(), V::F32(1.5e-7)),
+            (ColumnType::MYSQL_TYPE_DATE, ColumnFlags::empty(), V::Date(chrono::NaiveDate::from_ymd_opt(2021, 12, 31).unwrap())),
+            (ColumnType::MYSQL_TYPE_DATETIME, ColumnFlags::empty(), V::DateTime(chrono::NaiveDate::from_ymd_opt(1999, 1, 2).unwrap().and_hms_micro_opt(3, 4, 5, 678901).unwrap())),
+            (ColumnType::MYSQL_TYPE_TIME, ColumnFlags::empty(), V::Dur(std::time::Duration::new(100_000, 123_456_000))),
+            (ColumnType::MYSQL_TYPE_VAR_STRING, ColumnFlags::empty(), V::Str("short string".into())),
+            (ColumnType::MYSQL_TYPE_LONGLONG, ColumnFlags::empty(), V::Myc(mysql_common::value::Value::Int(-99887766554433))),
+            (ColumnType::MYSQL_TYPE_LONG, ColumnFlags::empty(), V::Null),
+        ];
+        let mut tcases: Vec<(usize, bool, usize)> = Vec::new(); // (kind, binary, bytes of room left in the packet)
+        for (ki, _) in kinds.iter().enumerate() {
+            for bin in [false, true] {
+                if ctx.thorough {
+                    for room in 0..=14 {
+                        tcases.push((ki, bin, room));
+                    }
+                } else {
+                    tcases.push((ki, bin, 1 + (ki * 3 + bin as usize) % 9));
+                }
+            }
+        }
+        let r = par_cases(ctx, "C04", "typed-cells-at-the-boundary", tcases.len() as u64, |_rng, i, rep| {
+            let (ki, bin, room) = tcases[i as usize];
+            let (ct, fl, v) = kinds[ki].clone();
+            // the first cell's encoding (4-byte prefix) ends `room` bytes in front of the limit
+            let head = if bin { 2 } else { 0 };
+            let n = MAXP - head - 4 - room;
+            let cols = vec![
+                Column { table: "t".into(), column: "big".into(), coltype: ColumnType::MYSQL_TYPE_LONG_BLOB, colflags: ColumnFlags::empty() },
+                Column { table: "t".into(), column: "v".into(), coltype: ct, colflags: fl },
+                Column { table: "t".into(), column: "tail".into(), coltype: ColumnType::MYSQL_TYPE_VAR_STRING, colflags: ColumnFlags::empty() },
+            ];
+            let ops = vec![QOp::Start(0), QOp::Col(Cell::val(V::Stream(ctx.seed, 40 + i, n))), QOp::Col(Cell::val(v.clone())), QOp::Col(Cell::val(V::Str("tail".into()))), QOp::EndRow, QOp::Finish];
+            let cmds = vec![Cmd::prepare(b"p"), if bin { Cmd::execute(1, &[], false) } else { Cmd::query(b"q") }, Cmd::ping()];
+            let scripts = vec![Script::PrepOk { id: 1, params: vec![], cols: vec![] }, Script::Q(QProg { colsets: vec![cols], ops, on_err: OnErr::Drop })];
+            let mut case = Case::new(cmds, scripts);
+            case.log_reads = false;
+            case.write_limit = [usize::MAX, 65_536, usize::MAX][(i % 3) as usize];
+            let obs = run_case(&case);
+            rep.evaluations += 1;
+            if harness_panic(&obs, rep) {
+                return;
+            }
+            let vn = format!("{:?}", v).chars().take(40).collect::<String>();
+            rep.counters.class(format!("typed cell at the boundary: {:?} {} room={}", ct, if bin { "bin" } else { "text" }, if room > 9 { ">9".to_string() } else { room.to_string() }));
+            let d = || J::obj().set("value", vn.clone()).set("column", format!("{:?}", ct)).set("mode", if bin { "binary" } else { "text" }).set("bytes_of_room_in_front_of_the_limit", room).set("blob_bytes", n).set("outcome", obs.outcome.describe());
+            if i < 1 {
+                rep.sample(d());
+            }
+            if let Outcome::Panic { file, line, msg } = &obs.outcome {
+                rep.violations.push(viol("C04", format!("C04 {}", panic_signature(file, *line, msg)), format!("writing a value across the packet limit panicked: {}", obs.outcome.describe()), d()));
+                return;
+            }
+            let dec = match decode_output(&obs) {
+                Ok(x) => x.2,
+                Err(e) => {
+                    rep.violations.push(viol("C04", "C04 bad-framing".into(), e, d()));
+                    return;
+                }
+            };
+            let Some(wire::Resp::Parts(parts)) = dec.resps.get(3) else {
+                rep.violations.push(viol("C04", "C04 typed-cell-row-lost".into(), format!("the reply with a value laid across the packet limit does not reassemble into a response: {:?}; outcome {}", dec.stop, obs.outcome.describe()), d()));
+                return;
+            };
+            let Some(wire::Part::Rows { cols: defs, rows, .. }) = parts.first() else {
+                rep.violations.push(viol("C04", "C04 typed-cell-row-lost".into(), "the reply is not a resultset".into(), d()));
+                return;
+            };
+            let want = super::values::sem_of(&v);
+            let mut blob = Vec::new();
+            stream_fill(&mut blob, ctx.seed, 40 + i, n, false);
+            let ok = (|| -> Result<(), String> {
+                let raw = rows.first().ok_or("no row")?;
+                if rows.len() != 1 {
+                    return Err(format!("{} rows for one", rows.len()));
+                }
+                if bin {
+                    let tf: Vec<(u8, u16)> = defs.iter().map(|c| (c.typ, c.flags)).collect();
+                    let vals = wire::decode_bin_row(raw, &tf)?;
+                    match &vals[0] {
+                        wire::BinVal::Bytes(b) if *b == blob => {}
+                        _ => return Err("the blob in front of the value differs".into()),
+                    }
+                    if !super::values::bin_matches(&vals[1], &want, tf[1].0) {
+                        return Err(format!("the value arrives as {:?}", vals[1]));
+                    }
+                    match &vals[2] {
+                        wire::BinVal::Bytes(b) if b == b"tail" => {}
+                        other => return Err(format!("the cell behind the value arrives as {:?}", other)),
+                    }
+                } else {
+                    let vals = wire::decode_text_row(raw, 3)?;
+                    if vals[0].as_deref() != Some(&blob[..]) {
+                        return Err("the blob in front of the value differs".into());
+                    }
+                    if !super::values::text_cell_matches(&vals[1], &want) {
+                        return Err(format!("the value arrives as {:?}", vals[1].as_ref().map(|b| show(b))));
+                    }
+                    if vals[2].as_deref() != Some(&b"tail"[..]) {
+                        return Err(format!("the cell behind the value arrives as {:?}", vals[2].as_ref().map(|b| show(b))));
+                    }
+                }
+                Ok(())
+            })();
+            match ok {
+                Ok(()) => rep.counters.inc("typed_cells_across_the_limit_compared"),
+                Err(e) => rep.violations.push(viol("C04", "C04 typed-cell-at-boundary-differs".into(), format!("a {:?} value written {} byte(s) in front of the 2^24-1 limit: {}", ct, room, e), d())),
+            }
+        });
+        rep.merge(r);
+
         // unfinished rows that already filled a packet, then abandoned
         let mut ab: Vec<(usize, u8, bool)> = vec![(MAXP, 0, false), (MAXP + 1000, 0, false), (MAXP - 1, 0, false), (MAXP + 3, 1, false), (MAXP + 7, 2, false), (MAXP + 9, 0, true)];
         if ctx.thorough {
